@@ -116,9 +116,9 @@ func RunConfigs(r *Report, self, repo, known string) {
 type SelfTestSpec struct {
 	ExpectRule      string `json:"expect_rule"`
 	ExpectConstruct string `json:"expect_construct_contains,omitempty"`
-	ExpectSilent    bool   `json:"expect_silent,omitempty"` // a behaviour-preserving edit: the rule set must report nothing
+	ExpectSilent    bool   `json:"expect_silent,omitempty"`     // a behaviour-preserving edit: the rule set must report nothing
 	KnownFalseAlarm string `json:"known_false_alarm,omitempty"` // documented limitation: this edit is known to make a rule undecided
-	Config          string `json:"config,omitempty"`        // build configuration under which the mutant is visible (default: host)
+	Config          string `json:"config,omitempty"`            // build configuration under which the mutant is visible (default: host)
 	Origin          string `json:"origin"`
 	What            string `json:"what"`
 }
